@@ -402,9 +402,10 @@ def _run(case, ctx, b, SPSDKError):  # noqa: C901
             r2 = mbi_rom.accept(bytes(mod), prof, **kw)
         except core.RefReject:
             rejected = True
-        except Exception:  # pylint: disable=broad-except  (malformed DER deep inside asn1crypto etc.)
-            rejected = True
+        except Exception as exc:  # pylint: disable=broad-except  (malformed DER deep inside asn1crypto etc.)
+            rejected = True       # a structure the model cannot even walk is not bootable
             ctx.count("flip_model_exception")
+            ctx.note("flip_model_exception", f"{name}: {core.exc_brief(exc)}")
         if kind == "isk_hash":
             if not o.get("add_hash"):
                 kind = "free"
